@@ -5,6 +5,8 @@ import (
 	"errors"
 	"fmt"
 	"io"
+	"net"
+	"os"
 	"regexp"
 	"runtime"
 	"sort"
@@ -44,7 +46,7 @@ func init() {
 
 func c10Cases(tier string, seed int64) []core.Case {
 	var cases []core.Case
-	faults := []string{"close", "reset", "stall-undersize", "stall-oversize", "stall-badtype", "stall-unknowntag", "stall-undersize-5", "stall-undersize-6", "stall-zero-5", "stall-oversize-6"}
+	faults := []string{"close", "reset", "stall-undersize", "stall-oversize", "stall-badtype", "stall-unknowntag", "stall-undersize-5", "stall-undersize-6", "stall-zero-5", "stall-oversize-6", "read-timeout"}
 	for k := 0; k <= 4; k++ {
 		for _, fault := range faults {
 			for _, dotu := range []bool{true, false} {
@@ -234,6 +236,8 @@ func c10Session(res *core.Result, k int, fault string, dotu bool, cut int, holdP
 	switch {
 	case fault == "reset":
 		faultKind = "reset"
+	case fault == "read-timeout":
+		faultKind = "timeout"
 	case strings.HasPrefix(fault, "stall"):
 		faultKind = "stall"
 	}
@@ -998,7 +1002,7 @@ func c10WriterBlocked(ctx *core.Ctx) core.Result {
 	var res core.Result
 	// readfail-*: only the server-to-client direction breaks (half-closed / receive timeout): Read fails while the
 	// blocked Write stays blocked
-	faults := []string{"close", "reset", "stall-undersize", "stall-oversize", "stall-badtype", "stall-unknowntag", "readfail-eof", "readfail-err"}
+	faults := []string{"close", "reset", "stall-undersize", "stall-oversize", "stall-badtype", "stall-unknowntag", "readfail-eof", "readfail-err", "readfail-timeout"}
 	for _, fault := range faults {
 		for k := 1; k <= 4; k++ {
 			res.Evals++
@@ -1075,6 +1079,8 @@ func c10WriterBlocked(ctx *core.Ctx) core.Result {
 				p.Cli.FailReadAfter(0, io.EOF)
 			case "readfail-err":
 				p.Cli.FailReadAfter(0, errors.New("read: i/o timeout"))
+			case "readfail-timeout":
+				p.Cli.FailReadAfter(0, &net.OpError{Op: "read", Net: "mem", Err: os.ErrDeadlineExceeded})
 			}
 			fin := make(chan struct{})
 			go func() {
